@@ -64,7 +64,7 @@ Exec(s0, cmd, seq, b) ==
          IF b = "v1" /\ s.ver = 0 THEN R([s EXCEPT !.ver = 1], Ok(seq, ""), {})
          ELSE R(s, Er(seq, ""), {})
     [] cmd = "auth" ->
-         IF (s.keyed /\ b = "v1") \/ (~s.keyed /\ b = "zero")
+         IF (s.keyed /\ b = "v1") \/ (~s.keyed /\ b \in {"zero", "empty"})     \* "empty": a body with AuthKey ""
          THEN R([s EXCEPT !.auth = TRUE], Ok(seq, ""), {})
          ELSE R(s, Er(seq, ""), {})
     [] cmd = "event"            -> R(s, Ok(seq, ""), {"event"})
@@ -98,7 +98,8 @@ Recv(s, o) ==
   ELSE IF o.a = "junk" THEN R([s EXCEPT !.open = FALSE], <<>>, {})
   ELSE IF s.wait THEN
          Exec(s, s.lh.cmd, s.lh.seq,
-              IF o.a = "body" /\ o.cmd = s.lh.cmd THEN (IF o.v = 1 THEN "v1" ELSE "v0") ELSE "zero")
+              IF o.a = "body" /\ o.cmd = s.lh.cmd
+              THEN (IF o.v = 1 THEN "v1" ELSE IF o.cmd = "auth" /\ o.v = 2 THEN "empty" ELSE "v0") ELSE "zero")
   ELSE LET lh == IF o.a = "hdr" THEN [cmd |-> o.cmd, seq |-> o.seq] ELSE s.lh
        IN  Dispatch([s EXCEPT !.lh = lh], lh.cmd, lh.seq)
 
@@ -245,8 +246,8 @@ MCNext  == { <<"auth", 1>>, <<"stats", 1>> }
 
 \* body variants: handshake 1 = version 1 (the only supported one), 0 = version 0, 2 = version 2, 3 = a large
 \* version (2^31-1) -- all three well-formed but unsupported: error reply, the connection stays un-handshaken;
-\* auth 1 = right key, 0 = wrong key; every other command 1 (0 = the same valid body).
-BodyVs(c) == IF c = "handshake" THEN {0, 1, 2, 3} ELSE {0, 1}
+\* auth 1 = right key, 0 = wrong key, 2 = the empty key ""; every other command 1 (0 = the same valid body).
+BodyVs(c) == IF c = "handshake" THEN {0, 1, 2, 3} ELSE IF c = "auth" THEN {0, 1, 2} ELSE {0, 1}
 SendHdr(c)  == Send([a |-> "hdr", cmd |-> c, seq |-> steps]) /\ cst' = (IF c \in NoBody THEN "" ELSE c)
 SendBody(v) == cst # "" /\ Send([a |-> "body", cmd |-> cst, v |-> v]) /\ cst' = ""
 SendJunk    == Send([a |-> "junk"]) /\ cst' = ""
